@@ -295,6 +295,9 @@ def c04(prog, rep):
     from . import tree as T
     prog.unit(T.UNIT)
     T.rule_t5(prog, rep)
+    T.rule_t5c(prog, rep)
+    T.rule_t7(prog, rep)
+    T.rule_t8(prog, rep)
     o = T.rule_t1(prog, rep, rid='T1')
     T.rule_t2(prog, rep, o)
     rep.explanation = (
